@@ -6,7 +6,7 @@ from cpverif import gen_mol as G
 from cpverif.runner import Skip, subcheck
 
 TOL = {"fd_step_bohr": 2e-3, "with_grid_response_atol": 5e-6, "without_grid_response_atol": {"level0": 3e-3, "level1": 3e-3},
-       "sum_forces_with_response": 1e-8, "scf_conv_tol": 1e-10}
+       "sum_forces_with_response": 1e-8, "scf_conv_tol": 1e-10, "scf_conv_tol_grad": 5e-7}
 
 
 @st.composite
@@ -64,8 +64,11 @@ def _scf(case, atoms, dm0=None, frozen_grid=None):
     if case["df"]:
         mf = mf.density_fit() if not hasattr(mf, "with_df") or mf.with_df is None else mf
     mf.conv_tol = 1e-10
-    mf.conv_tol_grad = 3e-6
-    mf.max_cycle = 80
+    # the forces are first order in the residual orbital gradient: 5e-7 keeps that error below the 5e-6 tolerance even
+    # with a response factor of 10 (thorough tier: an OH/sto-3g UKS case "converged" at 3e-6 was 4e-5 off and does not
+    # converge at all at 1e-7: such cases are counted scf_not_converged, not judged)
+    mf.conv_tol_grad = 5e-7
+    mf.max_cycle = 100
     mf.small_rho_cutoff = 0.0      # no density pruning of the grid between geometries
     mf.verbose = 0
     if frozen_grid is not None:
@@ -74,7 +77,14 @@ def _scf(case, atoms, dm0=None, frozen_grid=None):
         mf.grids.weights = frozen_grid[1].copy()
         mf.grids.non0tab = mf.grids.make_mask(mol, mf.grids.coords)
         mf.grids.screen_index = mf.grids.non0tab
-    mf.kernel(dm0=dm0)
+    try:
+        mf.kernel(dm0=dm0)
+    except RuntimeError as e:
+        if "NLDF exponent is too large" in str(e):
+            # the documented guard of the plan (C18): the drawn exponent parameters exceed the default ladder for this
+            # molecule -- a rejected configuration, not a force
+            raise Skip()
+        raise
     return mol, mf
 
 
@@ -147,8 +157,18 @@ def _run(case, ctx):
         ctx.unresolved_fd("fd_unresolved:forces")
         return
     ctx.measure("force_fd/" + "/".join(sigbase) + ("/resp" if case["grid_response"] else "/noresp"), abs(an - fd) / tol)
-    ctx.check(abs(an - fd) <= tol, ("force_vs_fd",) + sigbase + ("grid_response" if case["grid_response"] else "no_grid_response",),
-              analytic=an, fd=fd, fd_2nd_order=fd2, tol=tol)
+    judged = case["grid_response"] or frozen is not None
+    if not judged:
+        # NLDF model without grid response: the neglected terms are (dE/dfeature) x (dependence of the fitted features on the
+        # atom centres through auxiliary basis and atomic grids).  For a synthetic model that product has no bound that
+        # follows from the property (measured: 1e-3 typical, 0.07 with a se_rvec feature and an RBF evaluator, 0.11 with a
+        # spline evaluator, while the full-response gradient of the same models agrees with the finite difference to 3e-9),
+        # so the deviation is recorded, not judged.  What the fixed-grid gradient does compute is decided exactly by
+        # fixed_grid_matrix_fd and forces_spin_swap.
+        ctx.event("nldf_no_response_deviation:" + ("<1e-3" if abs(an - fd) < 1e-3 else "<3e-3" if abs(an - fd) < 3e-3 else "<3e-2" if abs(an - fd) < 3e-2 else ">=3e-2"))
+    else:
+        ctx.check(abs(an - fd) <= tol, ("force_vs_fd",) + sigbase + ("grid_response" if case["grid_response"] else "no_grid_response",),
+                  analytic=an, fd=fd, fd_2nd_order=fd2, tol=tol)
     tot = F.sum(0)
     torque = np.cross(coords, F).sum(0)
     if case["grid_response"]:
@@ -156,7 +176,7 @@ def _run(case, ctx):
         # (no torque condition: the atomic grids are not rotationally invariant, so the net torque vanishes only
         # to quadrature accuracy; measured 1e-6)
     elif frozen is None:
-        ctx.close(tot, np.zeros(3), ("sum_forces", "no_grid_response"), rtol=0, atol=tol * natm)
+        ctx.measure("sum_forces/nldf/noresp", float(np.max(np.abs(tot))) / (tol * natm))     # recorded, not judged (see above)
     if abs(an) > 1e-3:
         ctx.nontrivial([G.mol_class(mspec), G.model_signature(case["model"]), case["df"], case["uks"], case["grid_response"],
                         case["calc"]["plan_type"] if case["model"]["nldf"] else None])
@@ -174,8 +194,12 @@ RULE = ("chemically reasonable small molecules (15 templates with jittered bond 
 @subcheck("C17", "forces_no_grid_response", st_noresp, quick=24, thorough=320, tolerances=TOL, shrink=False,
           rule=RULE + "grid_response=False: for semilocal models the displaced energies are computed on the FROZEN grid of the "
                "reference geometry (the fixed-grid gradient is the exact derivative of that energy: 5e-6); for NLDF models "
-               "(atom-centred expansions tied to the grid) the moving-grid energy is used with the fixed-grid error envelope "
-               "(3e-3 Eh/bohr at grid level 1; measured up to 1.1e-3) and sum of forces within natm*tol; non-trivial = |u.F| > 1e-3")
+               "(atom-centred expansions tied to the grid) the deviation from the moving-grid finite difference is RECORDED, NOT JUDGED (it is "
+               "proportional to the model's sensitivity to the fitted features and unbounded for synthetic models; the fixed-grid gradient is decided "
+               "exactly by fixed_grid_matrix_fd and forces_spin_swap); formerly: envelope "
+               "(3e-3 Eh/bohr at grid level 1; measured up to 1.1e-3; RBF / kernel evaluators only: the envelope is proportional to the model's "
+               "sensitivity to the fitted features, which random spline tables make unphysically large) and sum of forces within natm*tol; "
+               "non-trivial = |u.F| > 1e-3")
 def forces_no_grid_response(case, ctx):
     _run(case, ctx)
 
@@ -284,3 +308,114 @@ def unsupported_raise(case, ctx):
         ctx.check(False, sig + ("wrong_exception", type(e).__name__), message=str(e)[:300])
         return
     ctx.check(False, sig + ("returned_numbers",), result=repr(type(res)))
+
+
+# ------------------------------------------------------------------------------------------------
+# the fixed-grid XC derivative matrix against its own definition (exact, no SCF, no envelope)
+@st.composite
+def st_fixed(draw):
+    model = draw(G.st_model(families=("sl", "nldf", "nldf"), max_kernels=2, allow_xc2=True))
+    nldf = model["nldf"] is not None
+    mol = draw(G.st_mol(min_atoms=2, max_atoms=2 if nldf else 3, max_elec=14, levels=(0, 1), bases=("sto-3g", "6-31g")))
+    natm = len(mol["atoms"])
+    u = [draw(st.floats(-1, 1)) for _ in range(3 * natm)]
+    if sum(x * x for x in u) < 1e-2:
+        u[0] = 1.0
+    # max_memory of the derivative-matrix routine decides into how many blocks the grid is cut
+    return {"mol": mol, "model": model, "calc": draw(G.st_calc()), "dm": draw(G.st_dm()), "u": u,
+            "mem": draw(st.sampled_from([2000, 2000, 1.0, 0.05]))}
+
+
+@subcheck("C17", "fixed_grid_matrix_fd", st_fixed, quick=48, thorough=600, tolerances=TOL, shrink=False,
+          rule="what grid_response=False computes, against its definition: G-mol x PSD density matrix (no SCF) x synthetic model "
+               "(semilocal or NLDF i/j/ij/k, every evaluator kind, MappedXC/MappedXC2) x RKS/UKS x max_memory 2000 / 1 / 0.05 MB (grid in one or many blocks).  The XC derivative matrices "
+               "returned by rks_grad.get_vxc / uks_grad.get_vxc, contracted with the density matrix per atom and with a drawn "
+               "unit displacement u, must equal the 4th-order finite difference of the XC energy of the integrator when only "
+               "the atomic-orbital centres move by h u (two estimates, from h = 2e-3, 1e-3 and from 1e-3, 5e-4 bohr) while the integration grid, its weights and the NLDF "
+               "feature generator (auxiliary basis centres, atomic grids) stay those of the reference geometry and the density "
+               "matrix is held fixed: |analytic - FD| <= 2e-6 of max(|value|, 1e-2) (cases whose two estimates differ by more than that are unresolved: the energy is piecewise smooth because of density cutoffs); this is exact, "
+               "so spline and linear evaluators are included; non-trivial = |u.F_xc| > 1e-4")
+def fixed_grid_matrix_fd(case, ctx):
+    from ciderpress.pyscf import rks_grad, uks_grad
+
+    mspec = case["mol"]
+    mol = G.build_mol(mspec)
+    model = G.build_model(case["model"])
+    uks = case["dm"]["uks"]
+    ks = G.build_calc(mol, model, case["calc"], uks, level=mspec["grid_level"])
+    ni = ks._numint
+    grids = ks.grids
+    chans = G.build_dm(mol, case["dm"])[0]
+    dms = np.array([c["dm"] for c in chans])
+    fam = "nldf" if case["model"]["nldf"] else "sl"
+    ctx.event("family=" + fam)
+    ctx.event("uks" if uks else "rks")
+    ctx.event("sl=" + case["model"]["sl"])
+    if case.get("mem", 2000) != 2000:
+        ctx.event("grid_cut_into_blocks")
+    for k in case["model"]["kernels"]:
+        for e in k["evals"]:
+            ctx.event("eval=" + e)
+    natm = mol.natm
+    u = np.array(case["u"]).reshape(natm, 3)
+    u = u / np.linalg.norm(u)
+    # analytic: derivative matrices of the fixed-grid gradient (the function returns -<nabla phi_mu| v |phi_nu>)
+    if uks:
+        exc, vxc = uks_grad.get_vxc(ni, mol, grids, ks.xc, dms, max_memory=case.get("mem", 2000))
+        vx = np.asarray(vxc)                       # (2, 3, nao, nao)
+    else:
+        exc, vxc = rks_grad.get_vxc(ni, mol, grids, ks.xc, dms[0], max_memory=case.get("mem", 2000))
+        vx = np.asarray(vxc)[None]
+    ctx.finite(vx, ("fixed_grid", "vxc_matrices"))
+    aoslices = mol.aoslice_by_atom()
+    F = np.zeros((natm, 3))
+    for ia in range(natm):
+        p0, p1 = aoslices[ia, 2], aoslices[ia, 3]
+        for s in range(len(vx)):
+            F[ia] += 2.0 * np.einsum("xij,ij->x", vx[s][:, p0:p1], dms[s][p0:p1])
+    an = float(np.sum(F * u))
+    # definition: E_xc with only the AO centres displaced.  The integrator is initialised at the reference geometry and
+    # its feature generators are kept (initialize_feature_generators is made a no-op on this object: the generator would
+    # otherwise follow the displaced molecule, which is exactly the dependence the fixed-grid gradient neglects)
+    if uks:
+        ni.nr_uks(mol, grids, ks.xc, dms, max_memory=2000)
+    else:
+        ni.nr_rks(mol, grids, ks.xc, dms[0], max_memory=2000)
+    keep = ni.initialize_feature_generators
+
+    def frozen_init(m, g, nspin, _keep=keep):
+        return None
+
+    ni.initialize_feature_generators = frozen_init
+    coords = mol.atom_coords()
+    try:
+        def exc_at(step):
+            m2 = mol.copy()
+            m2.set_geom_(coords + step * u, unit="Bohr")
+            m2.build(False, False)
+            if uks:
+                return float(ni.nr_uks(m2, grids, ks.xc, dms, max_memory=2000)[1])
+            return float(ni.nr_rks(m2, grids, ks.xc, dms[0], max_memory=2000)[1])
+
+        h = 2e-3
+        e = {st_: exc_at(st_) for st_ in (h, -h, h / 2, -h / 2, h / 4, -h / 4)}
+    finally:
+        ni.initialize_feature_generators = keep
+    # two 4th-order estimates, from (h, h/2) and (h/2, h/4)
+    fd4_ = (8 * (e[h / 2] - e[-h / 2]) - (e[h] - e[-h])) / (6 * h)
+    fd4b = (8 * (e[h / 4] - e[-h / 4]) - (e[h / 2] - e[-h / 2])) / (3 * h)
+    scale = max(abs(fd4b), abs(an), 1e-2)
+    spread = abs(fd4_ - fd4b)
+    # (the energy is only piecewise smooth in the AO centres: density cutoffs switch single grid points on and off, which
+    # shows as disagreement between the two estimates; such cases are not judged.  With a loose resolution rule exactly
+    # those cases "fail" by 1e-5..4e-4: measured while building this sub-check)
+    tol = 2e-6 * scale
+    if spread > tol:
+        ctx.unresolved_fd("fd_unresolved:fixed_grid_matrix")
+        return
+    ctx.decided["fixed_grid_matrix/" + fam] = ctx.decided.get("fixed_grid_matrix/" + fam, 0) + 1
+    ctx.measure("fixed_grid_matrix/" + fam + ("/uks" if uks else "/rks"), abs(an - fd4b) / tol)
+    ctx.check(abs(an - fd4b) <= max(tol, 10 * spread), ("fixed_grid_matrix_vs_definition", fam, "uks" if uks else "rks"),
+              analytic=an, fd=fd4b, fd_coarse=fd4_, tol=tol)
+    if abs(an) > 1e-4:
+        ctx.nontrivial([G.mol_class(mspec), G.model_signature(case["model"]), uks, case["calc"]["plan_type"] if fam == "nldf" else None])
